@@ -55,7 +55,7 @@ type em struct {
 	b    strings.Builder
 	occ  []Occ
 	last byte
-	br   int // open [ ] depth
+	br   int    // open [ ] depth
 	ctx  string // when set, overrides the context of every symbol written
 }
 
@@ -107,12 +107,12 @@ var (
 func tFn(a int) Ty { return Ty{'f', a} }
 
 type sig struct {
-	req  []Ty
-	opt  int // number of &optional (number typed) parameters
-	rest bool
-	keys []string
+	req    []Ty
+	opt    int // number of &optional (number typed) parameters
+	rest   bool
+	keys   []string
 	keyIDs []int // binder ids of the &key parameters
-	ret  Ty
+	ret    Ty
 }
 
 type bind struct {
@@ -139,9 +139,10 @@ type scope struct {
 }
 
 type pkg struct {
-	name    string
-	own     map[string]*bind
-	imports map[string]*bind
-	impFile map[string]int // file index of the use-package form that imported the name
-	exports []*bind
+	name        string
+	own         map[string]*bind
+	imports     map[string]*bind
+	impFile     map[string]int  // file index of the use-package form that imported the name
+	impConflict map[string]bool // name imported from two different packages (the later use-package wins at run time)
+	exports     []*bind
 }
